@@ -67,6 +67,26 @@ class Frame:
         self.ret = None
 
 
+_BINOPS = {'+': lambda a, b: a + b, '-': lambda a, b: a - b, '*': lambda a, b: a * b, '%': lambda a, b: _cmod(a, b),
+           '/': lambda a, b: _cdiv(a, b), '&': lambda a, b: a & b, '|': lambda a, b: a | b, '^': lambda a, b: a ^ b,
+           '<': lambda a, b: int(a < b), '<=': lambda a, b: int(a <= b), '>': lambda a, b: int(a > b), '>=': lambda a, b: int(a >= b),
+           '==': lambda a, b: int(a == b), '!=': lambda a, b: int(a != b), '<<': lambda a, b: a << b, '>>': lambda a, b: a >> b}
+
+
+def _cdiv(a, b):
+    # C division truncates towards zero
+    if not b:
+        return None
+    q = abs(a) // abs(b)
+    return q if (a >= 0) == (b >= 0) else -q
+
+
+def _cmod(a, b):
+    if not b:
+        return None
+    return a - b * _cdiv(a, b)
+
+
 class Machine:
     def __init__(self, prog, cond_oracle=None):
         self.prog = prog
@@ -234,7 +254,8 @@ class Machine:
         raise Unsupported('pointer expression %s at %s' % (k, loc_str(e)))
 
     def int_value(self, e, fr):
-        e = strip(e)
+        while isinstance(e, dict) and e.get('k') == 'load':
+            e = e['e']
         if not isinstance(e, dict):
             return None
         if 'cv' in e and not (e.get('k') == 'ref' and e.get('rk') in ('local', 'param')):
@@ -243,7 +264,16 @@ class Machine:
         if k == 'ref' and e.get('rk') in ('local', 'param'):
             return fr.ints.get(e['id'])
         if k == 'cast':
-            return self.int_value(e['e'], fr)
+            v = self.int_value(e['e'], fr)
+            t = e.get('t') or {}
+            if isinstance(v, int) and not isinstance(v, bool) and t.get('k') in ('int', 'enum') and t.get('size'):
+                bits = 8 * t['size']
+                v &= (1 << bits) - 1
+                if t.get('signed') and v >= (1 << (bits - 1)):
+                    v -= 1 << bits
+            elif isinstance(v, int) and t.get('k') == 'bool':
+                v = 1 if v else 0
+            return v
         if k == 'un':
             v = self.int_value(e['e'], fr)
             if v is None:
@@ -257,10 +287,9 @@ class Machine:
                 return 1 if (a or b) else (0 if (a is not None and b is not None) else None)
             if a is None or b is None:
                 return None
+            fn = _BINOPS.get(e['op'])
             try:
-                return {'+': a + b, '-': a - b, '*': a * b, '%': a % b if b else None, '/': a // b if b else None, '&': a & b,
-                        '<': int(a < b), '<=': int(a <= b), '>': int(a > b), '>=': int(a >= b), '==': int(a == b), '!=': int(a != b),
-                        '<<': a << b, '>>': a >> b}.get(e['op'])
+                return fn(a, b) if fn is not None else None
             except Exception:
                 return None
         if k == 'cond':
